@@ -225,3 +225,49 @@ func parseModel(resp string) map[string]uint64 {
 	}
 	return m
 }
+
+
+// Recheck feeds discharged obligations (complete SMT-LIB scripts ending in check-sat) to another solver and
+// returns how many it also answers unsat, and the answers that differ.
+func Recheck(solverName string, queries []string) (agree int, differ []string, err error) {
+	argv := SolverCommand(solverName)
+	cmd := exec.Command(argv[0], argv[1:]...)
+	in, err := cmd.StdinPipe()
+	if err != nil {
+		return 0, nil, err
+	}
+	outp, err := cmd.StdoutPipe()
+	if err != nil {
+		return 0, nil, err
+	}
+	if err := cmd.Start(); err != nil {
+		return 0, nil, err
+	}
+	defer func() { in.Close(); cmd.Process.Kill(); cmd.Wait() }()
+	rd := bufio.NewReaderSize(outp, 1<<16)
+	if solverName == "cvc5" {
+		io.WriteString(in, "(set-logic QF_BV)\n")
+	}
+	for _, q := range queries {
+		io.WriteString(in, "(push 1)\n"+q+"(pop 1)\n")
+		ans := ""
+		for {
+			line, rerr := rd.ReadString('\n')
+			if rerr != nil {
+				return agree, differ, fmt.Errorf("%s died: %v", solverName, rerr)
+			}
+			line = strings.TrimSpace(line)
+			if line == "" || line == "success" {
+				continue
+			}
+			ans = line
+			break
+		}
+		if ans == "unsat" {
+			agree++
+		} else {
+			differ = append(differ, ans)
+		}
+	}
+	return agree, differ, nil
+}
